@@ -118,6 +118,17 @@ def run(chk):
         cases.append(("F%d" % i, ["newcompiler", "ns nsA", "add " + hx((imp + other_gate + first).encode()), "ns nsB", "add " + hx(gate.encode()),
                                   "ns nsA", "add " + hx(b"rule later { condition: true }\n"), "ns nsB", "add " + hx(target.encode()),
                                   "getrules", "scanner 0"] + scans))
+        # J/K: a target whose atoms have edges for the extreme byte values (00, FF), compiled after / before ~250 companions whose atoms start
+        # with every other byte value: where a state lands in the packed transition table depends on all the other states
+        t0 = r.choice([0x41, 0x10, 0x7E, 0xFE])
+        tgt2 = "rule target2 { strings: $t = { %02X %s %02X %02X } condition: $t }\n" % (t0, r.choice(["FF", "00", "FF FF", "FE"]), r.below(256), r.below(256))
+        tv = bytes(int(x, 16) for x in re.search(r"\{ ([0-9A-F ]+) \}", tgt2).group(1).split())
+        comp = "".join("rule c%d { strings: $c = { %02X %02X %02X %02X } condition: $c }\n" % (k, k, (k * 7 + 1) % 256, (k * 13 + 2) % 256, 0x33)
+                       for k in range(r.choice([200, 254, 255])) if k != t0)
+        jscans = ["scan " + hx(b".." + tv + b".."), "scan " + hx(tv), "scan " + hx(b"zz")]
+        cases.append(("J%d" % i, ["newcompiler", "add " + hx(tgt2.encode()), "getrules", "scanner 0"] + jscans))
+        cases.append(("K%d" % i, ["newcompiler", "add " + hx((comp + tgt2).encode()), "getrules", "scanner 0"] + jscans))
+        cases.append(("L%d" % i, ["newcompiler", "add " + hx((tgt2 + comp).encode()), "getrules", "scanner 0"] + jscans))
         # H/I: rule sets with a wildcard (`all of (pk_*)`) select rules of their OWN namespace only: namespace nsB alone (H) vs after a
         # namespace nsA that has rules with the same prefix and other verdicts (I)
         pk = "rule pk_1 { condition: filesize > %d }\nrule pk_2 { condition: true }\n" % r.choice([20, 40, 60])
@@ -178,6 +189,16 @@ def run(chk):
                     if re_ and re_[0] == "N" and res["A"][bi] and res["A"][bi][0] == "M":
                         chk.add("gate_false_target_true")
         if not bad:
+            lj = [rule_result(l, "target2") for l in out.get("J%d" % i, []) if l.startswith("scan msgs=")]
+            for v in "KL":
+                lk = [rule_result(l, "target2") for l in out.get("%s%d" % (v, i), []) if l.startswith("scan msgs=")]
+                if len(lj) != 3 or lk != lj:
+                    chk.violation("company:table-layout", "rule target2 alone: %s ; %s ~250 rules whose atoms start with every other byte value: %s"
+                                  % (lj, "after" if v == "K" else "before", lk), {"variant": v, "alone": lj, "company": lk,
+                                   "how": "h_scan cases J/K/L of checks/c05.py (seed %d, item %d)" % (chk.seed, i)})
+                    bad = True
+                    break
+        if not bad:
             lh = [l for l in out.get("H%d" % i, []) if l.startswith("scan msgs=")]
             li = [l for l in out.get("I%d" % i, []) if l.startswith("scan msgs=")]
             if len(lh) != len(bufs) or len(li) != len(bufs):
@@ -197,7 +218,7 @@ def run(chk):
             agree += 1
             nontriv.add((len(others), tuple(x[0] if x else "?" for x in res["A"])))
         img = [l for l in out.get("B%d" % i, []) if l.startswith("save rc=0 image=")]
-        if img and (tier != "quick" or len(certq) < 20):
+        if img and len(certq) < (20 if tier == "quick" else 80):
             certq.append("accert " + img[0].split("image=")[1])
             certid.append(i)
     cres, _ = vlib.run_lines(model, certq, timeout=3000)
